@@ -37,7 +37,7 @@ Accepts(st, ev) ==
     [] ev.k = "attr" -> Len(st.open) > 1 /\ st.phase \in {"ns", "attr"} \* attributes before children
     [] OTHER -> TRUE                                                     \* children, End (surplus End at the root is tolerated)
 
-Step(st, ev) ==
+Consume(st, ev) ==
   CASE ev.k = "elem" -> [doc |-> AfterStart(st.doc, TopOf(st), ev.sp, ev.lo), open |-> Append(st.open, Len(st.doc) + 1), phase |-> "ns"]
     [] ev.k = "ns" -> [st EXCEPT !.doc = AfterNs(st.doc, TopOf(st), ev.lo, ev.v)]
     [] ev.k = "attr" -> [st EXCEPT !.doc = Append(st.doc, Node("attr", TopOf(st), ev.sp, ev.lo, ev.v)), !.phase = "attr"]
@@ -47,11 +47,11 @@ Step(st, ev) ==
     [] ev.k = "end" -> [st EXCEPT !.open = IF Len(st.open) > 1 THEN SubSeq(st.open, 1, Len(st.open) - 1) ELSE st.open, !.phase = "child"]
 
 RECURSIVE RunFrom(_, _, _)
-RunFrom(st, es, i) == IF i > Len(es) THEN st ELSE RunFrom(Step(st, es[i]), es, i + 1)
+RunFrom(st, es, i) == IF i > Len(es) THEN st ELSE RunFrom(Consume(st, es[i]), es, i + 1)
 \* the tree a whole event stream builds
 TreeOf(es) == RunFrom(St0, es, 1).doc
 RECURSIVE ConformsFrom(_, _, _)
-ConformsFrom(st, es, i) == i > Len(es) \/ (Accepts(st, es[i]) /\ ConformsFrom(Step(st, es[i]), es, i + 1))
+ConformsFrom(st, es, i) == i > Len(es) \/ (Accepts(st, es[i]) /\ ConformsFrom(Consume(st, es[i]), es, i + 1))
 Conforms(es) == ConformsFrom(St0, es, 1)
 
 =============================================================================
